@@ -51,15 +51,75 @@ fn expected(s: &Spec) -> Vec<Item> {
     }
 }
 
-fn make<'a>(s: &'a Spec) -> Box<dyn Iterator<Item = Item> + 'a> {
+/// the concrete iterator types (not `Box<dyn Iterator>`: a boxed trait object would route `fold`, `count`,
+/// `last`, ... through `next()` and hide an iterator's own versions of them)
+enum AnyIt<'a> {
+    K(KmerGenerator<'a>),
+    M(MinimiserGenerator<'a>),
+    KM(KmerMinimiserGenerator<'a>),
+}
+
+fn item_k(x: (u64, u64)) -> Item {
+    vec![x.0, x.1]
+}
+fn item_m(x: (u64, usize, usize)) -> Item {
+    vec![x.0, x.1 as u64, x.2 as u64]
+}
+fn item_km(x: (u64, usize, usize, Vec<u64>)) -> Item {
+    let mut it = vec![x.0, x.1 as u64, x.2 as u64];
+    it.extend(x.3);
+    it
+}
+
+/// run `$body` with `$it` bound to the concrete iterator mapped to items
+macro_rules! with_it {
+    ($any:expr, $it:ident => $body:expr) => {
+        match $any {
+            AnyIt::K(g) => {
+                let $it = g.map(item_k);
+                $body
+            }
+            AnyIt::M(g) => {
+                let $it = g.map(item_m);
+                $body
+            }
+            AnyIt::KM(g) => {
+                let $it = g.map(item_km);
+                $body
+            }
+        }
+    };
+}
+
+impl<'a> AnyIt<'a> {
+    fn next_item(&mut self) -> Option<Item> {
+        match self {
+            AnyIt::K(g) => g.next().map(item_k),
+            AnyIt::M(g) => g.next().map(item_m),
+            AnyIt::KM(g) => g.next().map(item_km),
+        }
+    }
+    fn nth_item(&mut self, n: usize) -> Option<Item> {
+        match self {
+            AnyIt::K(g) => g.nth(n).map(item_k),
+            AnyIt::M(g) => g.nth(n).map(item_m),
+            AnyIt::KM(g) => g.nth(n).map(item_km),
+        }
+    }
+    fn take_count(&mut self, n: usize) -> usize {
+        match self {
+            AnyIt::K(g) => g.by_ref().take(n).count(),
+            AnyIt::M(g) => g.by_ref().take(n).count(),
+            AnyIt::KM(g) => g.by_ref().take(n).count(),
+        }
+    }
+}
+
+fn make<'a>(s: &'a Spec) -> AnyIt<'a> {
     match s {
-        Spec::Kmer { seq, k } => Box::new(KmerGenerator::new(&seq.0, *k).map(|(f, r)| vec![f, r])),
-        Spec::Min { seq, w, m } => Box::new(MinimiserGenerator::new(&seq.0, *w, *m).map(|(a, s, e)| vec![a, s as u64, e as u64])),
-        Spec::KMin { seq, w, m } => Box::new(KmerMinimiserGenerator::new(&seq.0, *w, *m).map(|(a, s, e, ks)| {
-            let mut it = vec![a, s as u64, e as u64];
-            it.extend(ks);
-            it
-        })),
+        Spec::Kmer { seq, k } => AnyIt::K(KmerGenerator::new(&seq.0, *k)),
+        Spec::Min { seq, w, m } => AnyIt::M(MinimiserGenerator::new(&seq.0, *w, *m)),
+        Spec::KMin { seq, w, m } => AnyIt::KM(KmerMinimiserGenerator::new(&seq.0, *w, *m)),
     }
 }
 
@@ -69,7 +129,7 @@ fn run_session(c: &Session) -> Result<(usize, usize), String> {
     let want: Vec<Vec<Item>> = c.specs.iter().map(expected).collect();
     let wmers: Vec<Vec<u64>> = c.specs.iter().map(|s| match s { Spec::KMin { seq, w, .. } => model::canonical_stream(&seq.0, *w), _ => Vec::new() }).collect();
     let mut listed: Vec<Vec<u64>> = (0..SLOTS).map(|_| Vec::new()).collect();
-    let mut slots: Vec<Option<(usize, usize, Box<dyn Iterator<Item = Item> + '_>)>> = (0..SLOTS).map(|_| None).collect();
+    let mut slots: Vec<Option<(usize, usize, AnyIt<'_>)>> = (0..SLOTS).map(|_| None).collect();
     let (mut early_drops, mut interleaved) = (0usize, 0usize);
     for (i, op) in c.ops.iter().enumerate() {
         match op {
@@ -97,30 +157,33 @@ fn run_session(c: &Session) -> Result<(usize, usize), String> {
                     let fail = |what: String| Err(format!("operation {} ({:?}) on the iterator built from {} after {} items taken with next(): {}", i, op, crate::util::trunc(&format!("{:?}", c.specs[sp]), 160), pos, what));
                     match how % 8 {
                         0 => {
-                            let got = it.count();
+                            let got = with_it!(it, x => x.count());
                             if got != rest.len() {
                                 return fail(format!("count() = {}, {} items remain in the model", got, rest.len()));
                             }
                         }
                         1 => {
-                            let got = it.last().map(|x| head(&x));
+                            let got = with_it!(it, x => x.last()).map(|x| head(&x));
                             if got != rest.last().cloned() {
                                 return fail(format!("last() = {:?}, the model's last item is {:?}", got, rest.last()));
                             }
                         }
-                        2 | 3 | 4 => {
+                        2 | 3 | 4 | 6 => {
+                            let skip = if how % 8 == 6 { n } else { 0 };
                             let got: Vec<Item> = match how % 8 {
-                                2 => it.fold(Vec::new(), |mut acc, x| { acc.push(head(&x)); acc }),
-                                3 => { let mut acc = Vec::new(); it.for_each(|x| acc.push(head(&x))); acc }
-                                _ => it.collect::<Vec<Item>>().iter().map(|x| head(x)).collect(),
+                                2 => with_it!(it, x => x.fold(Vec::new(), |mut acc: Vec<Item>, y| { acc.push(head(&y)); acc })),
+                                3 => { let mut acc = Vec::new(); with_it!(it, x => x.for_each(|y| acc.push(head(&y)))); acc }
+                                4 => with_it!(it, x => x.collect::<Vec<Item>>()).iter().map(|y| head(y)).collect(),
+                                _ => with_it!(it, x => x.skip(skip).collect::<Vec<Item>>()).iter().map(|y| head(y)).collect(),
                             };
-                            if got != rest {
-                                let p = got.iter().zip(rest.iter()).position(|(a, b)| a != b).unwrap_or(got.len().min(rest.len()));
-                                return fail(format!("the rest taken by {} has {} items, the model {}; first difference at {}: {:?} vs {:?}", ["", "", "fold", "for_each", "collect"][(how % 8) as usize], got.len(), rest.len(), p, got.get(p), rest.get(p)));
+                            let exp: Vec<Item> = rest.iter().skip(skip).cloned().collect();
+                            if got != exp {
+                                let p = got.iter().zip(exp.iter()).position(|(a, b)| a != b).unwrap_or(got.len().min(exp.len()));
+                                return fail(format!("the rest taken by {} has {} items, the model {}; first difference at {}: {:?} vs {:?}", ["", "", "fold", "for_each", "collect", "", "skip + collect"][(how % 8) as usize], got.len(), exp.len(), p, got.get(p), exp.get(p)));
                             }
                         }
                         5 => {
-                            let got = it.nth(n).map(|x| head(&x));
+                            let got = it.nth_item(n).map(|x| head(&x));
                             if got != rest.get(n).cloned() {
                                 return fail(format!("nth({}) = {:?}, the model has {:?}", n, got, rest.get(n)));
                             }
@@ -129,15 +192,8 @@ fn run_session(c: &Session) -> Result<(usize, usize), String> {
                                 slots[slot] = Some((sp, pos + n + 1, it));
                             }
                         }
-                        6 => {
-                            let got: Vec<Item> = it.skip(n).map(|x| head(&x)).collect();
-                            let exp: Vec<Item> = rest.iter().skip(n).cloned().collect();
-                            if got != exp {
-                                return fail(format!("skip({}) leaves {} items, the model {}", n, got.len(), exp.len()));
-                            }
-                        }
                         _ => {
-                            let got = it.by_ref().take(n).count();
+                            let got = it.take_count(n);
                             if got != n.min(rest.len()) {
                                 return fail(format!("by_ref().take({}).count() = {}, the model has {} items left", n, got, rest.len()));
                             }
@@ -155,7 +211,7 @@ fn run_session(c: &Session) -> Result<(usize, usize), String> {
                 }
                 if let Some((sp, pos, it)) = &mut slots[slot] {
                     for _ in 0..*n {
-                        let mut got = it.next();
+                        let mut got = it.next_item();
                         if let (Spec::KMin { .. }, Some(g)) = (&c.specs[*sp], got.as_mut()) {
                             listed[slot].extend(g.drain(3..));
                             if !wmers[*sp].starts_with(&listed[slot]) {
